@@ -58,6 +58,18 @@ CHECKS = {
             "for every proto2 type with required fields of its own or in children reached through a field / required field / list / map / oneof, EVERY subset of those required fields left unset is enumerated (plus the empty message and the empty input); oracle = reference verdict (proto.CheckInitialized / strict Unmarshal) in both directions",
             "exhaustive per type up to 2^8 subsets; the base value populates every path to a required field",
             "exhaustive small-scope enumeration with a reference oracle"),
+    "C11": ("gencode",
+            "rapid-generated values of plain (no fast-marshal methods) and fast-marshal types of gogo / Google v1 (legacy) / Google v2 and of the Google and gogo well-known types, checked differentially against the OWNING runtime called directly (Marshal/Unmarshal in both directions incl. pre-populated destinations, Size, Clone, Equal incl. cross-runtime pairs, Reset, MarshalText, GrpcCodec, MsgType); unsupported values x every entry point exhaustively; first-use classification races in a -race binary that re-executes itself (fresh cache) with 8..64 goroutines at GOMAXPROCS 1/2/16",
+            "prototext output is only compared within one process; gogo's Equal is not NaN-aware and distinguishes nil from empty bytes, so content equality falls back to the reflective copies; schedules are sampled",
+            "property-based differential testing (rapid) against the owning runtimes + exhaustive unsupported-value matrix + race-detector re-exec rounds"),
+    "C12": ("gencode",
+            "rapid-generated programs (<= 30 ops: Set/Get/Has/Clear/ClearAll/Range/Marshal/ExtensionFieldNumber and accesses with another runtime's descriptor) over proto2 messages with extensions of every kind on plain types of the three runtimes; model map + twin message driven through the owning runtime's own extension API; invariants after every step",
+            "GetExtension on an unset extension differs between runtimes (default vs error): the oracle is the owning runtime's answer; Google V1 and V2 share one descriptor Go type, so a 'foreign' descriptor is a gogo one for Google messages and vice versa",
+            "model-based stateful property testing (rapid) with a twin driven through the owning runtime"),
+    "C18": ("gencode",
+            "rapid-generated values (JSON-representable: finite floats, declared enum values, in-range Timestamp/Duration) x the 2^3 marshal option combinations x indent strings x unknown-key / missing-required probes on the three runtimes; oracle: json.Valid, adapter round trip, the owning runtime's own JSON decoder accepts and decodes the original, structural probes per option, nil in / nil out",
+            "protojson whitespace is unstable: parsed JSON and per-line prefixes are compared, never bytes; equality with the owning runtime's marshaler output is not required (gogo messages are routed through golang's jsonpb by design of json.go)",
+            "property-based round-trip + differential testing (rapid) with structural option probes"),
     "C13": ("lazy",
             "rapid-generated schema-free messages (all wire types, repeated, packed, nested incl. empty, numbers up to 2^29-1) x random definitions (present/absent/nested/negative tags) x queries over all 26 typed accessors + NestedResult(s) through four access routes x {safe, fast} x {Decode function, Decoder}; oracle = reference wire parse of the same bytes + accessor table incl. error classes; mutated inputs: no panic",
             "each requested number uses one wire type (documented precondition); error classes are compared with errors.Is/As, never by text; for a tag declared flat but not nested either not-defined error is accepted",
